@@ -384,10 +384,13 @@ class Bicomplex(object):
         return np.pi / 2 - self.arcsin()
 
     def arctan(self):
+        # arctan(z1 + j*z2) = arctan(z1) + arctan(t) with t = j*z2 / (1 + z1*(z1 + j*z2)): the first term is the ordinary
+        # complex function; t is small, so 1 -+ j*t stay close to 1 (no branch of the logarithm is crossed) and log1p
+        # keeps the relative accuracy of the z2-part
         J = Bicomplex(0, 1)
-        arg1, arg2 = 1 - J * self, 1 + J * self
-        tmp = J * (arg1.log() - arg2.log()) * 0.5
-        return Bicomplex(tmp.z1, tmp.z2)
+        jt = J * (Bicomplex(0, self.z2) / (1 + self.z1 * self))
+        tmp = J * ((-jt).log1p() - jt.log1p()) * 0.5
+        return Bicomplex(np.arctan(self.z1) + tmp.z1, tmp.z2)
 
     def arccosh(self):
         return (self + (self ** 2 - 1) ** 0.5).log()
